@@ -2,8 +2,17 @@
 // battery of results per case. Input line:  <M> ; <rpn A> ; <rpn B>
 // RPN tokens: cI dI nI oI,J NM SM:u1,u2,.. Tu1,..|d1,..  kQ  * + - neg sQ aQ bQ comm acomm   (Q = p/q)
 // Output: lines A,B,MUL,ADD,SUB,COMM,ACOMM,EQ,COMMUTES,MATA,MATB,MATMUL,(NSZ) then END. Coefficients as hex floats.
+// Further lines (not printed by the model driver; checks/C05.py compares them with matrix expressions of the model's MATA/MATB):
+//   MATADD MATSUB MATCOMM MATACOMM          matrices of A+B, A-B, [A,B], {A,B} read through actRight(ket)
+//   GMEA GMEB GMEMUL GMEADD GMESUB GMECOMM GMEACOMM   the same seven matrices read through getMatrixElement(bra,ket), ALL (bra,ket) pairs
+//   SPECDIAG kind ket:one-arg|actRight-diag|n-offdiag-nonzero ...   N / Sz: getMatrixElement(ket), actRight(ket), getMatrixElement(bra!=ket)
+//   ALIAS <name> MAT <matrix> GME <matrix>   in-place expressions whose right-hand side IS the left-hand side object (S = copy of A):
+//       S*=S  S+=S  S*=S*S  S*=T(T a copy: reference)  S=S*S  S=S+S  S=S-S  S=S  S*=S;S*=S  S+=S;S*=S  S*=S;S+=S  S*=S;S-=T  S+=S*S  S-=S*S
+//       comm(S,S) acomm(S,S)  S*=coef S+=coef S-=coef (coef = S.begin()->second read from the object itself)   and  ALIASFLAGS eq commutes
+//   `h_c05 alias-sub`: per input line only  ALIASSUB MAT <matrix of S after S -= S> GME <...>  (a process of its own: see checks/C05.py)
 #include "ed_common.h"
 #include <boost/foreach.hpp>
+#include <memory>
 using namespace Pomerol;
 
 static double parse_q(const std::string& s) {
@@ -101,9 +110,61 @@ static void print_mat(const char* tag, const Operator& op, unsigned M) {
     printf("\n");
 }
 
+// every (bra, ket) pair through getMatrixElement(bra, ket); same format as print_mat
+static void print_gme_body(const Operator& op, unsigned M) {
+    for (unsigned long k = 0; k < (1ul << M); ++k) {
+        FockState ket(M, k);
+        bool first = true;
+        for (unsigned long b = 0; b < (1ul << M); ++b) {
+            MelemType v = op.getMatrixElement(FockState(M, b), ket);
+            if (v == MelemType(0)) continue;
+            if (first) printf(" %lu:", k);
+            printf("%s%lu=%s", first ? "" : ",", b, pv::hexd(std::real(ComplexType(v))).c_str());
+            first = false;
+        }
+    }
+}
+static void print_gme(const char* tag, const Operator& op, unsigned M) { printf("%s", tag); print_gme_body(op, M); printf("\n"); }
+static void print_alias(const char* name, const Operator& op, unsigned M) {
+    printf("ALIAS %s", name); print_mat(" MAT", op, M);   // print_mat ends the line
+    printf("ALIASGME %s", name); print_gme_body(op, M); printf("\n");
+}
+static size_t max_len(const Operator& op) { size_t l = 0; for (Operator::const_iterator it = op.begin(); it != op.end(); ++it) l = std::max(l, it->first.size()); return l; }
+static size_t n_terms(const Operator& op) { size_t n = 0; for (Operator::const_iterator it = op.begin(); it != op.end(); ++it) ++n; return n; }
+
+// in-place expressions with the object itself on the right-hand side
+static void alias_battery(const Operator& A, unsigned M) {
+    const size_t BIG = 4000;    // cap on the number of monomial products of the longer chains
+    { Operator S = A; S *= S; print_alias("S*=S", S, M); }
+    { Operator S = A; S += S; print_alias("S+=S", S, M); }
+    { Operator S = A; Operator T = A; S *= T; print_alias("S*=T", S, M); }
+    { Operator S = A; S = S * S; print_alias("S=S*S", S, M); }
+    { Operator S = A; S = S + S; print_alias("S=S+S", S, M); }
+    { Operator S = A; S = S - S; print_alias("S=S-S", S, M); }
+    { Operator S = A; Operator& R = S; S = R; print_alias("S=S", S, M); }
+    { Operator S = A; S += S; S *= S; print_alias("S+=S;S*=S", S, M); }
+    { Operator S = A; S *= S; S += S; print_alias("S*=S;S+=S", S, M); }
+    { Operator S = A; Operator T = A; S *= S; S -= T; print_alias("S*=S;S-=T", S, M); }
+    { Operator S = A; print_alias("comm(S,S)", S.getCommutator(S), M); print_alias("acomm(S,S)", S.getAntiCommutator(S), M);
+      printf("ALIASFLAGS %d %d\n", int(S == S), int(S.commutes(S))); }
+    Operator A2 = A * A;
+    if (n_terms(A2) * n_terms(A) <= BIG && 3 * max_len(A) <= 18) {
+        { Operator S = A; S *= S * S; print_alias("S*=S*S", S, M); }
+        { Operator S = A; S += S * S; print_alias("S+=S*S", S, M); }
+        { Operator S = A; S -= S * S; print_alias("S-=S*S", S, M); }
+    }
+    if (n_terms(A2) * n_terms(A2) <= BIG && 4 * max_len(A) <= 16) { Operator S = A; S *= S; S *= S; print_alias("S*=S;S*=S", S, M); }
+    if (A.begin() != A.end()) {
+        { Operator S = A; S *= S.begin()->second; print_alias("S*=coef", S, M); }
+        { Operator S = A; S += S.begin()->second; print_alias("S+=coef", S, M); }
+        { Operator S = A; S -= S.begin()->second; print_alias("S-=coef", S, M); }
+    }
+}
+
 int main(int argc, char* argv[]) {
     boost::mpi::environment env(argc, argv);
     pv::Quiet quiet;
+    bool alias_sub = argc > 1 && std::string(argv[1]) == "alias-sub";
     std::string line;
     while (std::getline(std::cin, line)) {
         size_t p1 = line.find(';'), p2 = line.find(';', p1 + 1);
@@ -114,6 +175,14 @@ int main(int argc, char* argv[]) {
         std::string ea = eval_rpn(line.substr(p1 + 1, p2 - p1 - 1), A, sp);
         std::string eb = eval_rpn(line.substr(p2 + 1), B, spB);
         if (!ea.empty() || !eb.empty()) { printf("ERR %s %s\nEND\n", ea.c_str(), eb.c_str()); fflush(stdout); continue; }
+        if (alias_sub) {
+            printf("BEGIN\n"); fflush(stdout);
+            Operator S = A; S -= S;
+            print_mat("ALIASSUB MAT", S, M); print_gme("ALIASSUBGME", S, M);
+            { Operator T = A; T *= T; T -= T; print_mat("ALIASSUB2 MAT", T, M); }
+            printf("END\n"); fflush(stdout);
+            continue;
+        }
         print_poly("A", A);
         print_poly("B", B);
         Operator AB = A * B;
@@ -140,6 +209,36 @@ int main(int argc, char* argv[]) {
             }
             printf("\n");
         }
+        // ---- second reading path, remaining matrices, aliased in-place expressions ----
+        {
+            Operator ADD = A + B, SUB = A - B, COMM = A.getCommutator(B), ACOMM = A.getAntiCommutator(B);
+            print_mat("MATADD", ADD, M); print_mat("MATSUB", SUB, M); print_mat("MATCOMM", COMM, M); print_mat("MATACOMM", ACOMM, M);
+            print_gme("GMEA", A, M); print_gme("GMEB", B, M); print_gme("GMEMUL", AB, M);
+            print_gme("GMEADD", ADD, M); print_gme("GMESUB", SUB, M); print_gme("GMECOMM", COMM, M); print_gme("GMEACOMM", ACOMM, M);
+        }
+        for (size_t i = 0; i < sp.size(); ++i) {
+            printf("SPECDIAG %d", sp[i].kind);
+            OperatorPresets::N n(sp[i].kind == 1 ? sp[i].M : 1);
+            std::unique_ptr<OperatorPresets::Sz> zp;
+            if (sp[i].kind == 2) zp.reset(new OperatorPresets::Sz(sp[i].M, sp[i].ups));
+            if (sp[i].kind == 3) zp.reset(new OperatorPresets::Sz(sp[i].ups, sp[i].downs));
+            for (unsigned long k = 0; k < (1ul << M); ++k) {
+                FockState ket(M, k);
+                MelemType one; std::map<FockState, MelemType> img; unsigned long nz = 0;
+                if (sp[i].kind == 1) { one = n.getMatrixElement(ket); img = n.actRight(ket); }
+                else { one = zp->getMatrixElement(ket); img = zp->actRight(ket); }
+                for (unsigned long b = 0; b < (1ul << M); ++b) if (b != k) {
+                    MelemType v = sp[i].kind == 1 ? n.getMatrixElement(FockState(M, b), ket) : zp->getMatrixElement(FockState(M, b), ket);
+                    if (v != MelemType(0)) ++nz;
+                }
+                // the image must be (at most) the ket itself
+                MelemType dg = 0; unsigned long other = 0;
+                for (std::map<FockState, MelemType>::const_iterator it = img.begin(); it != img.end(); ++it) { if (it->first == ket) dg = it->second; else if (it->second != MelemType(0)) ++other; }
+                printf(" %lu:%s|%s|%lu", k, pv::hexd(std::real(ComplexType(one))).c_str(), pv::hexd(std::real(ComplexType(dg))).c_str(), nz + other);
+            }
+            printf("\n");
+        }
+        alias_battery(A, M);
         printf("END\n"); fflush(stdout);
     }
     return 0;
